@@ -58,12 +58,7 @@ Theorem C14_structure_executed {A : Arith} (leb_total : forall a b : T A, leb a 
   /\ sortedb (c_knots d') = true /\ Permutation (pairwise_sums (c_knots d) kk) (c_knots d')
   /\ c_nknots d' = (c_nknots d * length kk)%nat
   /\ wf_table t' = true.
-Proof.
-  intros H1 H2 H3.
-  destruct (structure isort (isort_sorted leb_total) isort_perm factorial false t dim kk H1 H2 H3)
-    as (_ & E1 & E2 & E3 & E4 & _ & _ & _ & _ & E5).
-  repeat split; assumption.
-Qed.
+Proof. exact (structure_executed leb_total t dim kk). Qed.
 
 Theorem C14_coeffs_mode_product {A : Arith} (fact : nat -> Z) (flip : bool) (sort : list (T A) -> list (T A))
         (t : @ctable A) (dim : nat) (kk : list (T A)) (i j k : nat) :
